@@ -127,6 +127,8 @@ def check(chk, repo, tier):
                            witness=PY_WITNESS.get(cons))
     chk.floor("python functions touching bookkeeping lists", n_fn, 3)
 
+    stray_stopiteration(chk, repo)
+
     chk.explanation = (
         "Decides, for all programs, that every normally terminating construct "
         "restores the depth of the four bookkeeping lists: each structure "
@@ -139,7 +141,10 @@ def check(chk, repo, tier):
         "height). The same analysis covers every table template and every "
         "python function that pushes/pops a list. By induction the depth is "
         "unchanged at every statement boundary outside loops/lambdas. "
-        "Exception edges are excluded ('finishes normally').")
+        "Exception edges are excluded ('finishes normally') - except "
+        "StopIteration, which builtin map/filter and LazyList.__next__ take "
+        "for the end of the data: element code must not let it escape "
+        "(every one-argument next() outside a generator is under a handler).")
     chk.assumptions += [
         "the lists are only resized through ctx.<list>.append(..)/pop(); any "
         "other resize is itself reported (raw-write)",
@@ -147,6 +152,72 @@ def check(chk, repo, tier):
     ]
 
 
+def stray_stopiteration(chk, repo):
+    """A lambda body that raises StopIteration does not abort the program:
+    the map/filter object that drives it ends quietly, the program finishes
+    normally, and the lambda's four pushes are never undone.  So outside
+    generators (where PEP 479 turns it into RuntimeError) no element code may
+    raise it: one-argument next() needs a handler, `raise StopIteration` is
+    out."""
+    n_sites = 0
+    for modname in ("elements", "helpers", "LazyList"):
+        mod = repo.mod(modname)
+        for fn, qual in all_functions(mod.tree):
+            nodes = list(own_nodes(fn))
+            if any(isinstance(n, (ast.Yield, ast.YieldFrom)) for n in nodes):
+                continue
+            if qual.endswith("__next__"):
+                continue  # the iterator protocol itself
+            for n in nodes:
+                bad = None
+                if isinstance(n, ast.Call) and isinstance(n.func, ast.Name) \
+                        and n.func.id == "next" and len(n.args) == 1 \
+                        and not n.keywords:
+                    bad = f"next({ast.unparse(n.args[0])[:30]})"
+                elif isinstance(n, ast.Call) and isinstance(
+                        n.func, ast.Attribute) and n.func.attr == "__next__":
+                    bad = f"{ast.unparse(n)[:30]}"
+                elif isinstance(n, ast.Raise) and n.exc is not None and \
+                        "StopIteration" in ast.unparse(n.exc):
+                    bad = "raise StopIteration"
+                if bad is None:
+                    continue
+                n_sites += 1
+                guarded = False
+                child = n
+                cur = getattr(n, "_parent", None)
+                while cur is not None and cur is not fn:
+                    if isinstance(cur, ast.Try) and any(
+                            child is s for s in cur.body) and any(
+                            h.type is None or any(
+                                t in ast.unparse(h.type) for t in (
+                                    "StopIteration", "Exception"))
+                            for h in cur.handlers):
+                        guarded = True
+                        break
+                    if isinstance(cur, (ast.GeneratorExp,)):
+                        guarded = True  # runs inside a generator frame
+                        break
+                    child = cur
+                    cur = getattr(cur, "_parent", None)
+                chk.ob("C12.no-stray-stopiteration",
+                       f"{modname}.{qual}:{bad}", guarded,
+                       f"`{bad}` can raise StopIteration out of {qual}: "
+                       "inside a filter/map lambda the driving iterator "
+                       "takes it for the end of the list, the program "
+                       "finishes normally and the lambda's bookkeeping "
+                       "entries stay pushed", mod.rel, n.lineno,
+                       witness=STOP_WITNESS.get(f"{modname}.{qual}"),
+                       sample={"site": f"{qual}:{bad}"})
+    chk.unit("next()/raise StopIteration sites outside generators", n_sites)
+    chk.floor("next()/raise StopIteration sites outside generators",
+              n_sites, 8)
+
+
+STOP_WITNESS = {
+    "LazyList.LazyList.compare":
+        '⟨1|2⟩ λ 0ɾ 0ɾ" s ;F  leaves (2,2,2,1) from (1,1,1,0)',
+}
 PY_WITNESS = {
     "python:LazyList.LazyList.output": "3ɾ, leaves (1,1,2,0) from (1,1,1,0)",
 }
